@@ -3,6 +3,7 @@ import math
 from vcheck import Case, gnlist, gzlist
 import tgen
 from props.c01_conv import (OPS as CONV_OPS, gen_cases_conv, run_conv, check_conv, oracle_conv, TRIGGERS, WITNESSES)
+from props.c01_w3 import OPS3, gen_cases_w3, run_w3, check_w3, oracle_w3
 
 PROP = "C01"
 LEVEL = "proof"
@@ -11,7 +12,7 @@ COQ_TARGETS = ["Props/C01.vo", "Model/C01Harness.vo", "Model/Harness.vo"]
 THEOREM_FILES = ["Props/C01.v"]
 COQ_IMPORTS = ("From Coq Require Import List ZArith Bool.\n"
                "From PV Require Import Base.Index Base.Perm Np.Array Model.Sparse Model.Repr Model.Harness Model.C07Ops Model.C07Harness "
-               "Model.C01Conv Model.C01Unique Model.C01Coo Model.C01Harness.\n")
+               "Model.C01Conv Model.C01Unique Model.C01Coo Model.C01W3 Model.C01Harness.\n")
 RULE = ("dense<->sparse: all shapes with <= 8 cells (exhaustive) + seeded random shapes <= 5 modes / 96 cells; sparsity {0,1,some,all}; stored "
         "orders {sorted,reversed,random}; non-trivial = more than one cell and at least one nonzero; distinct = distinct (op,args); "
         "matricisation: every ordered partition of the modes into (rdims, cdims) for N<=4 (either side may be empty) + seeded sample "
@@ -23,14 +24,23 @@ RULE = ("dense<->sparse: all shapes with <= 8 cells (exhaustive) + seeded random
         "rdims, cdims, tshape): every argument form, repeated positions, cancelling and explicit zeros, shuffled orders, and malformed "
         "requests (non-partitions, out-of-range modes and indices, wrong element count, 1-d / 3-d / empty data, regrouped matrix "
         "shapes) — the guard model must predict accept / reject / empty and the accepted object must convert back and forth as the "
-        "model does; from_array of dense matrices and of scipy matrices given as raw triples (shuffled, split positions, stored zeros)")
+        "model does; from_array of dense matrices and of scipy matrices given as raw triples (shuffled, split positions, stored zeros); "
+        "third wave: memory layouts {C, strided view, negative strides, rotated axes} x copy {True, False} for tensor / tenmat / from_array / "
+        "Kruskal and Tucker factors / sptensor(copy=False); the chain tensor -> to_tenmat -> tenmat() -> to_tensor -> to_sptensor -> "
+        "to_sptenmat -> to_sptensor -> full (every step compared); stored zeros {some, all, none, nothing stored} in sparse tensors through "
+        "every converter; sptenmat(copy=False) incl. malformed requests; forced N x 1 / 1 x N splits; sums with identical patterns, exact "
+        "cancellation, second conversion and parts re-observed; unfoldings beyond 2^15 rows / columns with nonzeros in the last cells; "
+        "Kruskal to_tenmat in every request form, factors of mixed element types; Tucker sparse cores in any stored order")
 CORRESPONDENCE_ONLY = [
-    "ktensor.double, ttensor.double, sumtensor.double (same arrays as full(), observed raw)",
-    "ktensor.to_tenmat (= full().to_tenmat: each half is a theorem, the composition inside pyttb is observed)",
-    "sptensor.ttm as used by ttensor.full with a SPARSE core (to_sptenmat, scipy product, from_array): the theorem C01_tucker_impl "
-    "covers the dense-core route (tensor.ttm); the sparse route is compared with the same model on generated inputs only",
-    "sptenmat(..., copy=False) (stores the arguments unchecked) and tenmat(..., copy=False) are not modelled",
-    "scipy: coo_matrix construction and toarray() are modelled (positions summed), not verified",
+    "scipy: coo_matrix construction, toarray() (positions summed) and coo.dot(dense matrix) (matrix product) are modelled, not verified",
+    "memory layout / element type of the arrays handed to constructors (C-contiguous, strided views, negative strides, rotated axes; "
+    "int64 / float32 / float64 Kruskal factors): the Coq arrays are abstract F-order lists, so tensor(data, shape, copy) and the layout "
+    "normalisation of tenmat / ktensor / ttensor / sptensor constructors are compared on generated inputs only",
+    "sumtensor.full as executed (`result += part` dispatching on the part's class): the model adds the densified parts (C01_sum; the "
+    "densifications are the proved ones); a second conversion of the same sumtensor and the parts afterwards are observed, not modelled",
+    "sptensor.ttm over a LIST of modes other than the Tucker use (mode 0 then dense): single mode n is proved (C01_sptensor_ttm)",
+    "sptensor.ttm result container (`Z.nnz <= 0.5 * prod(siz)` is never reached with a dense matrix: Z is an ndarray): modelled as the "
+    "to_tensor() branch",
 ]
 ASSUMPTIONS = ["numpy transpose / F-order reshape / scatter / nonzero semantics as defined in Np/Array.v and Model/Sparse.v",
                "np.unique(axis=0, return_inverse=True) orders rows lexicographically (first column most significant) and accumarray(func=sum) "
@@ -43,7 +53,7 @@ ASSUMPTIONS = ["numpy transpose / F-order reshape / scatter / nonzero semantics 
 
 def gen_cases(rng, tier):
     big = tier == "thorough"
-    cases = gen_cases_conv(rng, tier)
+    cases = gen_cases_conv(rng, tier) + gen_cases_w3(rng, tier)
     shapes = tgen.shapes_upto(8) + [tuple(tgen.rand_shape(rng, maxn=5, maxcells=96)) for _ in range(120 if big else 25)]
     for shp in shapes:
         n = math.prod(shp)
@@ -65,8 +75,19 @@ def gen_cases(rng, tier):
 
 
 def run_impl(c):
+    import logging
+    logging.disable(logging.WARNING)     # "selected no copy, but ... must copy" warnings of the constructors (layout streams)
+    try:
+        return _run_impl(c)
+    finally:
+        logging.disable(logging.NOTSET)
+
+
+def _run_impl(c):
     if c.op in CONV_OPS:
         return run_conv(c)
+    if c.op in OPS3:
+        return run_w3(c)
     import numpy as np
     import pyttb as ttb
     a = c.args
@@ -91,6 +112,8 @@ def run_impl(c):
 def coq_check(c, o):
     if c.op in CONV_OPS:
         return check_conv(c, o)
+    if c.op in OPS3:
+        return check_w3(c, o)
     a = c.args
     if "exc" in o:
         return "false"          # every request generated here is admissible
@@ -115,6 +138,8 @@ def oracle(c, o):
     """brute-force: does pyttb's output denote the same array? (pure Python loops)"""
     if c.op in CONV_OPS:
         return oracle_conv(c, o)
+    if c.op in OPS3:
+        return oracle_w3(c, o)
     a = c.args
     if "exc" in o:
         return f"admissible conversion raised {o['exc']}: {o.get('msg')}"
